@@ -1,5 +1,5 @@
 #!/usr/bin/env python3
-"""tools/build_seeded.py — turn /verif/seeded_staging/<ID>/mN.{diff,md},mN_demo.rs plus the sweep results
+"""tools/build_seeded.py — (one-off, kept for the record; the staging directory it read has been removed) turn /verif/seeded_staging/<ID>/mN.{diff,md},mN_demo.rs plus the sweep results
 (/verif/.build/mutant_sweep.jsonl, written by tools/sweep_mutants.sh) into /verif/seeded/<ID>-mN/
 {patch.diff, demo.rs, notes.md, meta.json}."""
 import json, os, re, shutil, sys
@@ -18,17 +18,22 @@ if os.path.exists(p):
 # mutants that no longer change behaviour because a later fix: commit covers the same path
 MASKED = {
     ('C02', 'm2'): "masked by fix 575038d (walk errors no longer skip a Missing entry without an in-place report): with that fix the mutated branch is never the one that decides; the demonstration passes with the mutant applied",
-    ('C09', 'm1'): "masked by fix 87064b8 (namespace imports are traced with StarWithDefault): the mutated `Subset + Star` merge is no longer reached by the scenario the mutant needs; the demonstration passes with the mutant applied",
+}
+# notes on seeded changes the quick tier does not catch
+NOTES = {
+    ('C19', 'm5'): "not caught. The change only shows in a follow-up build (graph already has roots, so no cache-busting restart) that meets stale package metadata with two requirements on one package in one pass. The C19 monitor's registry slice keeps stale metadata out on purpose: an at-once build restarts and reloads every package while a follow-up build refreshes one package in place, so with stale metadata the two histories differ legitimately (first-come version unification) and the oracle `incremental == at-once` is not sound there. Catching this needs a model of the no-restart refresh path; recorded as a gap.",
 }
 ORIGIN = {
     'm3': "revert of a fix: commit of this repository (see notes.md)",
 }
 
 def needs(md):
-    m = re.search(r'(?is)(what is needed to manifest|what.{0,20}needs? to manifest|needs to manifest)\**\s*[:\-—]?\s*(.+?)(\n\s*\n|\n\*\*|\Z)', md)
+    m = re.search(r'(?is)\**\s*(what is needed to manifest|what.{0,20}needs? to manifest|needed to manifest|needs to manifest|what it takes[^:.\n]*|what is needed[^:.\n]*|trigger)\**\s*[:.\-—]?\**\s*(.+?)(\n\s*\n|\n\*\*|\n- \*\*|\Z)', md)
     if m:
-        return re.sub(r'\s+', ' ', m.group(2)).strip()
-    return re.sub(r'\s+', ' ', md).strip()[:600]
+        return re.sub(r'\s+', ' ', m.group(2)).strip()[:900]
+    # fall back to the first paragraph after the title
+    paras = [p for p in re.split(r'\n\s*\n', md) if p.strip() and not p.lstrip().startswith('#')]
+    return re.sub(r'\s+', ' ', paras[0]).strip()[:600] if paras else 'see notes.md'
 
 os.makedirs(OUT, exist_ok=True)
 index = []
@@ -62,6 +67,8 @@ for pid in sorted(os.listdir(STAGE)):
         if masked:
             meta['status'] = 'masked'
             meta['note'] = masked
+        if (pid, m) in NOTES:
+            meta['note'] = NOTES[(pid, m)]
         if s:
             meta['check_exit'] = s.get('exit')
             meta['signatures_reported'] = s.get('signatures', [])
